@@ -127,7 +127,7 @@ func (h *history) dbAt(off int64) int {
 func (h *history) contains(id string) bool { _, ok := h.idx[id]; return ok }
 
 func genPiece(r *rand.Rand, tag string, n int) *gen.Stream {
-	return gen.GenStream(r, gen.StreamOptions{Hist: tag, NCmds: n, MaxDB: 2, PSelect: 0.08, PTxn: 0.06, PNoise: 0.1, MaxTxnLen: 3, StartDB: -1})
+	return gen.GenStream(r, gen.StreamOptions{Hist: tag, NCmds: n, MaxDB: 3, PSelect: 0.15, PTxn: 0.06, PNoise: 0.1, MaxTxnLen: 3, StartDB: -1})
 }
 
 func sentinelPiece(tag string, db int) (*gen.Stream, string) {
@@ -171,4 +171,11 @@ func filterI64(xs []int64, f func(int64) bool) []int64 {
 		}
 	}
 	return out
+}
+
+func short(id string) string {
+	if len(id) > 8 {
+		return id[:8]
+	}
+	return id
 }
